@@ -12,7 +12,8 @@ import ast
 
 from ..cfg import cfg_of, literals
 from ..dataflow import Defs, atoms, calls_in, stmt_of
-from ..index import AnalysisError, call_name, dotted, enclosing, head, norm, walk_body
+from ..index import N, AnalysisError, call_name, dotted, enclosing, head, norm, walk_body
+from ..pattern import find, has_fact, local_defined_as, pmatch
 from ..rules import COMPOUND, kw, node_calls, own_calls
 from ..witness import W
 
@@ -35,7 +36,7 @@ ASSUMPTIONS = ["numpy structured-array semantics: a store to arr[i]['f'][s] or r
 # routine -> (allowed fields, arrays that must not be written)
 WRITE_SETS = {
     ("cut_baseline", RED): ({"data", "reduction_level"}, set()),
-    ("cut_outside_hits", RED): ({"reduction_level", "<fields:meta_fields>"}, {"records", "hits"}),
+    ("cut_outside_hits", RED): ({"reduction_level", "<fields>"}, {"records", "hits"}),
     ("_cut_outside_hits", RED): ({"data"}, {"records", "hits"}),
     ("baseline", PULSE): ({"data", "baseline", "baseline_rms"}, set()),
     ("integrate", PULSE): ({"area"}, set()),
@@ -117,7 +118,7 @@ def stores(f):
                 else:
                     # arr[name] = ...: whole rows, or a list of fields held in a variable
                     sel = [val for kind, val in chain if kind == "name"]
-                    field = f"<fields:{sel[0]}>" if sel else "<rows>"
+                    field = "<fields>" if sel else "<rows>"
                 out.append((rv[cur.id], field, n))
     return out
 
@@ -151,63 +152,69 @@ def r1_write_sets(chk, repo):
         chk.check(t.startswith("new_recs[") and v == "records" + t[len("new_recs"):], "C18.R1", k, st, "kept samples are not copied from the same record and the same sample range of the input",
                   site_text=f"_cut_outside_hits: `{t}` copied from the identical slice of records", site={"function": k.qualname, "construct": t})
     co = repo.func("cut_outside_hits", RED)
-    d = Defs(co.node)
-    nr = d.single("new_recs")
-    chk.check(nr is not None and norm(nr) == "np.zeros(len(records), dtype=records.dtype)", "C18.R1", co, None, "output records do not start zeroed with the input's length and dtype", site_text="cut_outside_hits: new_recs = zeros(len(records), records.dtype)")
+    NR, nr_assign, _ = local_defined_as(co.node, "np.zeros(len(records), dtype=records.dtype)")
+    chk.check(NR is not None, "C18.R1", co, None, "output records do not start zeroed with the input's length and dtype", site_text="cut_outside_hits: output = zeros(len(records), records.dtype)")
     kc = [c for c in calls_in(co.node) if call_name(c) == "_cut_outside_hits"]
-    chk.check(len(kc) == 1 and [norm(a) for a in kc[0].args[:3]] == ["records", "hits", "new_recs"], "C18.R1", co, None, "kernel is not called with (input, hits, output)", site_text="cut_outside_hits: _cut_outside_hits(records, hits, new_recs, ...)")
+    chk.check(len(kc) == 1 and [norm(a) for a in kc[0].args[:3]] == ["records", "hits", NR], "C18.R1", co, None, "kernel is not called with (input, hits, output)", site_text="cut_outside_hits: _cut_outside_hits(records, hits, output, ...)")
     rets = [n_ for n_ in walk_body(co.node) if isinstance(n_, ast.Return) and n_.value is not None]
-    chk.check({norm(r.value) for r in rets} == {"records", "new_recs"}, "C18.R1", co, None, "reduced records are not what is returned", site_text="cut_outside_hits: returns new_recs (records if empty)")
+    chk.check({norm(r.value) for r in rets} == {"records", NR}, "C18.R1", co, None, "reduced records are not what is returned", site_text="cut_outside_hits: returns the output (records if empty)")
+
+
+HIT_FIELDS = ["time", "length", "dt", "channel", "record_i", "area", "height", "max_time", "left", "right", "threshold"]
 
 
 def r2_hit_fields(chk, repo):
     chk.describe("C18.R2", "the hit finder fills time, length, dt, channel, record_i, area, height, max_time, left, right and threshold of every hit, thresholds with >=, and refuses zero-length hits")
     f = repo.func("_find_hits", PULSE)
-    assigned = {}
-    for n in walk_body(f.node):
-        if isinstance(n, ast.Assign) and isinstance(n.targets[0], ast.Subscript) and norm(n.targets[0].value) == "res" and isinstance(n.targets[0].slice, ast.Constant):
-            assigned[n.targets[0].slice.value] = n
-    need = {
-        "time": {"hit_start", "str:time", "str:dt"},
-        "length": {"hit_end", "hit_start"},
-        "dt": {"str:dt"},
-        "channel": {"str:channel"},
-        "record_i": {"record_i"},
-        "area": {"area"},
-        "height": {"height"},
-        "max_time": {"max_time"},
-        "left": {"hit_start"},
-        "right": {"hit_end"},
-        "threshold": {"threshold"},
-    }
     cfg = cfg_of(f)
-    for fld, prov in need.items():
+    # the result row: the local whose string-keyed items are assigned most often
+    by_name = {}
+    for n in walk_body(f.node):
+        if isinstance(n, ast.Assign) and isinstance(n.targets[0], ast.Subscript) and isinstance(n.targets[0].value, ast.Name) and isinstance(n.targets[0].slice, ast.Constant) and isinstance(n.targets[0].slice.value, str):
+            by_name.setdefault(n.targets[0].value.id, {})[n.targets[0].slice.value] = n
+    chk.need(bool(by_name), "C18.R2: no field assignments found in _find_hits")
+    assigned = max(by_name.values(), key=len)
+    for fld in HIT_FIELDS:
         st = assigned.get(fld)
-        ok = st is not None and prov <= atoms(st.value)
-        chk.check(ok, "C18.R2", f, st, f"hit field `{fld}` is " + ("not assigned" if st is None else f"assigned from `{norm(st.value)}`, which does not involve {sorted(prov)}"),
-                  site_text=f"_find_hits: res[{fld}] from {sorted(prov)}", site={"function": f.qualname, "field": fld})
-    # all in the same block, before the offset advances
+        chk.check(st is not None, "C18.R2", f, st, f"hit field `{fld}` is not assigned", site_text=f"_find_hits: hit[{fld}] assigned", site={"function": f.qualname, "field": fld})
     blocks = {id(enclosing(st, (ast.If,))) for st in assigned.values()}
     chk.check(len(blocks) == 1, "C18.R2", f, None, "hit fields are not filled together for every saved hit", site_text="_find_hits: all fields assigned in the save block", nontrivial=False)
+    left, right = assigned.get("left"), assigned.get("right")
+    HS = left.value.id if left is not None and isinstance(left.value, ast.Name) else None
+    HE = right.value.id if right is not None and isinstance(right.value, ast.Name) else None
+    chk.check(HS is not None and HE is not None and HS != HE, "C18.R2", f, left, "left / right are not the start / end sample indices of the hit", site_text="_find_hits: left = hit start index, right = hit end index")
+    if HS is None or HE is None:
+        return
     ln = assigned.get("length")
-    chk.check(ln is not None and isinstance(ln.value, ast.BinOp) and isinstance(ln.value.op, ast.Sub) and norm(ln.value) == "hit_end - hit_start", "C18.R2", f, ln, "hit length is not end - start (exclusive right bound)", site_text="_find_hits: length = hit_end - hit_start")
+    chk.check(ln is not None and pmatch(f"{HE} - {HS}", ln.value) is not None, "C18.R2", f, ln, "hit length is not end - start (exclusive right bound)", site_text="_find_hits: length = end - start", site={"function": f.qualname, "field": "length-value"})
     tm = assigned.get("time")
-    chk.check(tm is not None and norm(tm.value) == "r['time'] + hit_start * r['dt']", "C18.R2", f, tm, "hit time is not record time + start sample x dt", site_text="_find_hits: time = r.time + hit_start * dt")
-    d = Defs(f.node)
-    sat = d.single("satisfy_threshold")
-    chk.check(sat is not None and isinstance(sat, ast.Compare) and isinstance(sat.ops[0], ast.GtE) and norm(sat.left) == "x" and norm(sat.comparators[0]) == "threshold", "C18.R2", f, None, "samples are not compared with `>= threshold` (hits are runs of samples at or above threshold)", site_text="_find_hits: satisfy_threshold = x >= threshold", site={"function": f.qualname, "construct": "threshold comparison"})
-    th = d.single("threshold")
-    chk.check(th is not None and isinstance(th, ast.Call) and call_name(th) == "max" and "min_amplitude[r['channel']]" in norm(th) and "r['baseline_rms'] * min_height_over_noise[r['channel']]" in norm(th), "C18.R2", f, None, "threshold is not the maximum of the per-channel amplitude and noise-scaled thresholds", site_text="_find_hits: threshold = max(min_amplitude[ch], rms * min_height_over_noise[ch])")
-    chk.check(any(isinstance(n.stmt, ast.Raise) and ("hit_end == hit_start", True) in cfg.guard_facts(n) for n in cfg.stmt_nodes()), "C18.R2", f, None, "zero-length hits can be saved", site_text="_find_hits: raise on zero-length hit")
-    ends = [n for n in walk_body(f.node) if isinstance(n, ast.Assign) and norm(n.targets[0]) == "hit_end"]
+    chk.check(tm is not None and pmatch(f"L_r['time'] + {HS} * L_r['dt']", tm.value) is not None, "C18.R2", f, tm, "hit time is not record time + start sample x dt", site_text="_find_hits: time = r.time + start * dt", site={"function": f.qualname, "field": "time-value"})
+    for fld, pat in (("dt", "L_r['dt']"), ("channel", "L_r['channel']")):
+        st = assigned.get(fld)
+        chk.check(st is not None and pmatch(pat, st.value) is not None, "C18.R2", f, st, f"hit {fld} is not the record's {fld}", site_text=f"_find_hits: {fld} = r[{fld}]", site={"function": f.qualname, "field": fld + "-value"})
+    ri = assigned.get("record_i")
+    loops = [n for n in walk_body(f.node) if isinstance(n, ast.For) and pmatch("enumerate(records)", n.iter) is not None and isinstance(n.target, ast.Tuple)]
+    chk.check(ri is not None and bool(loops) and isinstance(ri.value, ast.Name) and ri.value.id == norm(loops[0].target.elts[0]), "C18.R2", f, ri, "record_i is not the index of the record the hit was found in", site_text="_find_hits: record_i = index of the enclosing record", site={"function": f.qualname, "field": "record_i-value"})
+    th = assigned.get("threshold")
+    TH = th.value.id if th is not None and isinstance(th.value, ast.Name) else None
+    sat = [(n, b) for n, b in find(f.node, "L_sat = L_x >= L_thr") if b["L_thr"] == TH] if TH else []
+    chk.check(bool(sat), "C18.R2", f, None, "samples are not compared with `>= threshold` (hits are runs of samples at or above threshold), or the stored threshold is not the one applied", site_text="_find_hits: satisfy = x >= threshold, threshold stored", site={"function": f.qualname, "construct": "threshold comparison"})
+    thd = [n for n, b in find(f.node, f"{TH} = max(min_amplitude[L_r['channel']], L_r['baseline_rms'] * min_height_over_noise[L_r['channel']])")] if TH else []
+    chk.check(bool(thd), "C18.R2", f, None, "threshold is not the maximum of the per-channel amplitude and noise-scaled thresholds", site_text="_find_hits: threshold = max(min_amplitude[ch], rms * min_height_over_noise[ch])")
+    chk.check(any(isinstance(n.stmt, ast.Raise) and has_fact(cfg, n, f"{HE} == {HS}", True) for n in cfg.stmt_nodes()), "C18.R2", f, None, "zero-length hits can be saved", site_text="_find_hits: raise on zero-length hit")
+    SAT = sat[0][1]["L_sat"] if sat else None
+    ends = [n for n in walk_body(f.node) if isinstance(n, ast.Assign) and norm(n.targets[0]) == HE]
+    sample_loops = [n for n in walk_body(f.node) if isinstance(n, ast.For) and pmatch("range(L_n)", n.iter) is not None and isinstance(n.target, ast.Name)]
+    I = sample_loops[0].target.id if sample_loops else None
+    NS = pmatch("range(L_n)", sample_loops[0].iter)["L_n"] if sample_loops else None
     vals = {norm(n.value) for n in ends}
-    chk.check(vals == {"i", "i + 1"}, "C18.R2", f, None, f"hit end assignments are {sorted(vals)}, expected the sample below threshold (i) or the record end (i + 1)", site_text="_find_hits: hit_end = i (below threshold) or i + 1 (record end)")
+    chk.check(I is not None and vals == {I, f"{I} + 1"}, "C18.R2", f, None, f"hit end assignments are {sorted(vals)}, expected the sample below threshold (i) or the record end (i + 1)", site_text="_find_hits: end = i (below threshold) or i + 1 (record end)")
     for n in ends:
-        facts = cfg.guard_facts(cfg.node_of(n))
-        if norm(n.value) == "i":
-            chk.check(("satisfy_threshold", False) in facts and ("in_interval", True) in facts, "C18.R2", f, n, "a hit is ended at a sample that is above threshold", site_text="hit_end = i when the sample is below threshold")
+        node = cfg.node_of(n)
+        if norm(n.value) == I:
+            chk.check(SAT is not None and has_fact(cfg, node, SAT, False), "C18.R2", f, n, "a hit is ended at a sample that is above threshold", site_text="end = i when the sample is below threshold")
         else:
-            chk.check(("i == n_samples - 1", True) in facts and ("satisfy_threshold", True) in facts, "C18.R2", f, n, "record-end termination is not at the last sample", site_text="hit_end = i + 1 at the last sample of the record")
+            chk.check(SAT is not None and has_fact(cfg, node, SAT, True) and has_fact(cfg, node, f"{I} == {NS} - 1", True), "C18.R2", f, n, "record-end termination is not at the last sample", site_text="end = i + 1 at the last sample of the record")
     fh = repo.func("find_hits", PULSE)
     rt = [n for n in walk_body(fh.node) if isinstance(n, ast.Return)]
     chk.check(any("_find_hits(records, min_amplitude, min_height_over_noise)" == norm(r.value) for r in rt), "C18.R2", fh, None, "find_hits does not delegate to the kernel with per-channel thresholds", site_text="find_hits: _find_hits(records, min_amplitude, min_height_over_noise)", nontrivial=False)
@@ -216,22 +223,25 @@ def r2_hit_fields(chk, repo):
 def r3_metadata_copy(chk, repo):
     chk.describe("C18.R3", "data reduction copies every record field except exactly data and reduction_level from the input")
     f = repo.func("cut_outside_hits", RED)
-    d = Defs(f.node)
-    mf = d.single("meta_fields")
+    NR, _a, _b = local_defined_as(f.node, "np.zeros(len(records), dtype=records.dtype)")
+    comps = [n for n in walk_body(f.node) if isinstance(n, ast.Assign) and isinstance(n.targets[0], ast.Name) and isinstance(n.value, ast.ListComp) and any(norm(g.iter) == "records.dtype.names" for g in n.value.generators)]
     ok = False
     excl = None
-    if isinstance(mf, ast.ListComp) and len(mf.generators) == 1:
+    MF = None
+    if len(comps) == 1:
+        MF = comps[0].targets[0].id
+        mf = comps[0].value
         g = mf.generators[0]
-        if norm(g.iter) == "records.dtype.names" and len(g.ifs) == 1 and isinstance(g.ifs[0], ast.Compare) and isinstance(g.ifs[0].ops[0], ast.NotIn) and norm(mf.elt) == norm(g.target):
+        if len(mf.generators) == 1 and len(g.ifs) == 1 and isinstance(g.ifs[0], ast.Compare) and isinstance(g.ifs[0].ops[0], ast.NotIn) and norm(mf.elt) == norm(g.target) and norm(g.ifs[0].left) == norm(g.target):
             c = g.ifs[0].comparators[0]
             if isinstance(c, (ast.List, ast.Tuple, ast.Set)):
                 excl = {e.value for e in c.elts if isinstance(e, ast.Constant)}
                 ok = excl == {"data", "reduction_level"}
     chk.check(ok, "C18.R3", f, None, f"fields copied as metadata are not all fields except data and reduction_level (excluded: {sorted(excl) if excl is not None else 'unknown'}): record metadata would be lost or the waveform copied wholesale",
-              site_text="cut_outside_hits: meta_fields = dtype.names - {data, reduction_level}", site={"function": f.qualname, "construct": "meta_fields"})
-    cp = [n for n in walk_body(f.node) if isinstance(n, ast.Assign) and norm(n.targets[0]) == "new_recs[meta_fields]"]
-    chk.check(len(cp) == 1 and norm(cp[0].value) == "records[meta_fields]", "C18.R3", f, cp[0] if cp else None, "metadata is not copied from the input records", site_text="cut_outside_hits: new_recs[meta_fields] = records[meta_fields]", site={"function": f.qualname, "construct": "metadata copy"})
-    rl = [n for n in walk_body(f.node) if isinstance(n, ast.Assign) and norm(n.targets[0]) == "new_recs['reduction_level']"]
+              site_text="cut_outside_hits: meta fields = dtype.names - {data, reduction_level}", site={"function": f.qualname, "construct": "meta_fields"})
+    cp = [n for n in walk_body(f.node) if isinstance(n, ast.Assign) and MF and NR and norm(n.targets[0]) == f"{NR}[{MF}]"]
+    chk.check(len(cp) == 1 and norm(cp[0].value) == f"records[{MF}]", "C18.R3", f, cp[0] if cp else None, "metadata is not copied from the input records", site_text="cut_outside_hits: output[meta fields] = records[meta fields]", site={"function": f.qualname, "construct": "metadata copy"})
+    rl = [n for n in walk_body(f.node) if isinstance(n, ast.Assign) and NR and norm(n.targets[0]) == f"{NR}['reduction_level']"]
     chk.check(len(rl) == 1 and norm(rl[0].value).endswith("HITS_ONLY"), "C18.R3", f, None, "reduction level of reduced records is not HITS_ONLY", site_text="cut_outside_hits: reduction_level = HITS_ONLY")
 
 
